@@ -393,7 +393,7 @@ def main():
             exe = build_harness(hz["src"], hz["cfg"], lib, hz.get("flags", ()))
             tag = "%s-%s" % (prop, os.path.basename(exe))
             outfile = os.path.join(WORK, "out-%s.txt" % tag)
-            rc, err = run_harness(exe, tier, seed, outfile, replay=a.replay, timeout=hz.get("timeout", 3600 if tier == "quick" else 14400), env=hz.get("env"))
+            rc, err = run_harness(exe, tier, seed, outfile, replay=None, timeout=hz.get("timeout", 3600 if tier == "quick" else 14400), env=hz.get("env"))
             cases, fails, stats, smp = parse_harness(outfile)
             samples += smp
             for k, v in stats.items():
@@ -490,6 +490,19 @@ def main():
     ev["wall_s"] = round(time.time() - t0, 2)
     cov["notes"] = notes
     write_evidence(prop, ev)
+    if a.replay:
+        # replay = re-run the whole check for the property and report whether the recorded witness /
+        # obligation still fails (harness runs are deterministic in VERIF_SEED)
+        try:
+            rec = json.load(open(a.replay))
+        except Exception as ex:
+            print("REPLAY: cannot read %s: %s" % (a.replay, ex))
+            sys.exit(2)
+        key = rec.get("obligation")
+        again = (key in new_fail_keys) or any(b[1] == key for b in broken)
+        same_input = any(js == rec.get("input") for js in new_fail_keys.get(key, []))
+        print("REPLAY: obligation %r %s%s" % (key, "STILL FAILS" if again else "no longer fails",
+                                              " on the recorded input" if same_input else ""))
     for l in known_lines:
         print(l)
     for rp, suffix in violations:
